@@ -231,7 +231,8 @@ def replay_lp(tag, rec):
         cl.add('C02', 'status_iff_feasible', status == rec['status'],
                'pulp_status %r, spec %r (|F0|=%d)' % (status, rec['status'], rec['nF0']))
         if rec['status'] == 'Optimal':
-            cl.add('C16', 'solve_count', len(ev) == rec['nsolves'],
+            # diagnostic only: the number of underlying solves is not part of any statement
+            cl.add('D', 'solve_count', len(ev) == rec['nsolves'],
                    '%d underlying solves, spec %d' % (len(ev), rec['nsolves']))
         F0 = mset(rec['F0']) if rec.get('F0') or rec['nF0'] == 0 else None
         # per-solve comparisons
